@@ -488,13 +488,19 @@ class FunctionReference:
                     partial_args=partial_args,
                     partial_kwargs=partial_kwargs,
                 )
-                return FunctionReference(
+                fn_reference = FunctionReference(
                     memento_fn,
                     cluster_name=cluster_name,
                     version=version,
                     partial_args=partial_args,
                     partial_kwargs=partial_kwargs,
                 )
+                if parameter_names and fn_reference.parameter_names != parameter_names:
+                    # A function of that name and version exists, but not with the recorded
+                    # signature: the arguments stored with the reference cannot be bound to it.
+                    external = True
+                else:
+                    return fn_reference
             except Exception:
                 # Cannot find module or function (the lookup imports the module named in the
                 # stored name, which may fail in any way). Treat as an external function reference.
